@@ -76,6 +76,42 @@ async fn run() {
         }
         n.serve_pending();
     }
+    // quotes CREATED by the node (ant-node create_quote_for_storecost: the node's own key signs): they must verify
+    // only for the node itself and only as long as every signed field is untouched
+    let nq: usize = arg("--node-quotes").and_then(|s| s.parse().ok()).unwrap_or(40);
+    let other = PeerId::from(keypair(&mut rng).public());
+    for i in 0..nq {
+        use ant_node::verif_hooks::VerifNode;
+        use ant_protocol::NetworkAddress;
+        let mut x = [0u8; 32];
+        rng.fill(&mut x);
+        let addr = match i % 3 {
+            0 => NetworkAddress::from_chunk_address(ant_protocol::storage::ChunkAddress::new(XorName(x))),
+            1 => NetworkAddress::from_transaction_address(ant_protocol::storage::TransactionAddress::new(XorName(x))),
+            _ => NetworkAddress::from_record_key(&libp2p::kad::RecordKey::new(&x)),
+        };
+        let m = QuotingMetrics { close_records_stored: rng.gen_range(0..5000), max_records: 16384, received_payment_count: rng.gen_range(0..50), live_time: rng.gen_range(0..100000),
+                                 network_density: if rng.gen_bool(0.5) { Some([rng.gen::<u8>(); 32]) } else { None }, network_size: if rng.gen_bool(0.5) { Some(rng.gen_range(1..100000)) } else { None } };
+        let mut rew = [0u8; 20];
+        rng.fill(&mut rew);
+        let rewards = RewardsAddress::from(rew);
+        match VerifNode::create_quote_for_storecost(&n.network, &addr, &m, &rewards) {
+            Ok(q) => {
+                let mut alts = vec![];
+                let mut a = q.clone(); a.content = XorName([9u8; 32]); alts.push(a);
+                let mut a = q.clone(); a.timestamp = q.timestamp + Duration::from_secs(1); alts.push(a);
+                let mut a = q.clone(); a.quoting_metrics.received_payment_count += 1; alts.push(a);
+                let mut a = q.clone(); a.quoting_metrics.live_time += 1; alts.push(a);
+                let mut a = q.clone(); a.quoting_metrics.close_records_stored += 1; alts.push(a);
+                let mut a = q.clone(); a.rewards_address = RewardsAddress::from([1u8; 20]); alts.push(a);
+                let altered: Vec<bool> = alts.iter().map(|a| a.check_is_signed_by_claimed_peer(n.peer)).collect();
+                t.emit(json!({"ev":"NodeQuote","res":"ok","own":q.check_is_signed_by_claimed_peer(n.peer),"other":q.check_is_signed_by_claimed_peer(other),
+                    "altered":altered,"content_ok":q.content == addr.as_xorname().unwrap_or_default(),"metrics_ok":q.quoting_metrics == m,"rewards_ok":q.rewards_address == rewards,
+                    "fresh":!q.has_expired()}));
+            }
+            Err(e) => t.emit(json!({"ev":"NodeQuote","res":e,"own":false,"other":false,"altered":[],"content_ok":false,"metrics_ok":false,"rewards_ok":false,"fresh":false})),
+        }
+    }
     drop(n);
     let _ = std::fs::remove_dir_all(&dir);
     let lines = t.finish();
